@@ -13,6 +13,8 @@ def _is_noop_line(frame):
 
 
 class TraceFault:
+    avoid_lines = frozenset()     # (filename, lineno) of statements no abort may land on (see DirtyProfile.restoring_lines)
+
     def __init__(self, repo_root, at_line, exc_factory):
         self.prefix = os.path.join(os.path.realpath(repo_root), "nbdime") + os.sep
         self.at = at_line
@@ -37,8 +39,11 @@ class TraceFault:
         if event == "line" and not self.fired:
             self.count += 1
             if self.count == self.at:
-                if _is_noop_line(frame):
-                    self.at += 1          # nothing real can strike on a bare `try:`: the next statement it is
+                if _is_noop_line(frame) or (frame.f_code.co_filename, frame.f_lineno) in self.avoid_lines:
+                    # nothing real can strike on a bare `try:`, and no code can protect itself inside its own clean-up
+                    # statement: the next statement it is.  (Decided here, at fire time: a counting pass and the faulted
+                    # pass need not execute the same number of lines - caches warm up in between.)
+                    self.at += 1
                     return self._local
                 self.fired = True
                 self.where = "%s:%d" % (os.path.relpath(frame.f_code.co_filename, self.prefix), frame.f_lineno)
@@ -120,11 +125,13 @@ class DirtyProfile(TraceFault):
         self.dirty = [[] for _ in self.start]
         self.funcs = []          # function key of every line event, in order
         self.noop = set()        # line events on bare block keywords
+        self.where_of = []       # (filename, lineno) of every line event, in order
 
     def _local(self, frame, event, arg):
         if event == "line":
             self.count += 1
             self.funcs.append("%s:%s" % (os.path.basename(frame.f_code.co_filename), frame.f_code.co_name))
+            self.where_of.append((frame.f_code.co_filename, frame.f_lineno))
             if _is_noop_line(frame):
                 self.noop.add(self.count)
             now = self.fp()
@@ -140,6 +147,10 @@ class DirtyProfile(TraceFault):
             out.update(c for c in d if (c + 1) not in ds)
         return out
 
+    def restoring_lines(self):
+        """Source lines of the restoring statements (for TraceFault.avoid_lines)."""
+        return frozenset(self.where_of[c - 1] for c in self.restoring_instants() if 0 < c <= len(self.where_of))
+
     def transient_instants(self):
         end = self.fp()
         restoring = self.restoring_instants()
@@ -152,7 +163,13 @@ class DirtyProfile(TraceFault):
     def avoid_restoring(self, at):
         """Move an abort point off a restoring statement (to the line event before it)."""
         restoring = self.restoring_instants()
-        while at in restoring and at > 1:
+
+        def leads_to_restore(i):
+            # a restoring statement, or bare block keywords (`finally:`) with nothing but a restoring statement after them
+            while i in self.noop:
+                i += 1
+            return i in restoring
+        while leads_to_restore(at) and at > 1:
             at -= 1
         while at in self.noop and at < self.count:
             at += 1
